@@ -20,6 +20,7 @@ func c11(c *q.Ctx) {
 	const ut = "kernel/permission/acl/utils::"
 	const st = "bcs/ledger/xledger/state::"
 	aclValidators(c)
+	xuperSignRules(c)
 	permTree(c)
 	vp := c.Fn(ut + "validatePermTree")
 	if vp != nil {
